@@ -1546,8 +1546,12 @@ func runC04(res *hx.Result, rng *hx.Rng, tier string, outdir string) {
 	h.mixedSizes(res, rng, cases, tier, outdir)
 	// (viii) calls issued while the connection is being torn down
 	h.tearDown(res, rng, cases, tier, outdir)
+	// (ix) calls pipelined to one object whose method adds / removes objects of its own service
+	h.factory(res, rng, cases, tier)
 	cases.Flush()
 	res.Notes = append(res.Notes, h.notes...)
 	res.Notes = append(res.Notes, "goroutine scheduling inside one process cannot be forced between two lock acquisitions: part (ii) is stress with per-call oracles and a trace check; the theorems cover all schedules of the model")
-	h.srv.Terminate()
+	term := make(chan struct{})
+	go func() { h.srv.Terminate(); close(term) }()
+	c04WaitCh(term, 2*time.Second)
 }
